@@ -514,6 +514,17 @@ impl Compiler {
         Ok(())
     }
 
+    /// The operand of `delete` / `typeof` without the purely static syntax wrapped around it:
+    /// `o.x!`, `(o.x as T)`, `(<T>o.x)` name the same reference as `o.x` / `(o.x)`
+    fn erase_static_operand(expr: &Expression) -> &Expression {
+        match expr {
+            Expression::NonNull(nn) => Self::erase_static_operand(&nn.expression),
+            Expression::TypeAssertion(ta) => Self::erase_static_operand(&ta.expression),
+            Expression::Parenthesized(inner, _) => Self::erase_static_operand(inner),
+            other => other,
+        }
+    }
+
     /// Compile a unary expression
     fn compile_unary_expression(
         &mut self,
@@ -529,7 +540,7 @@ impl Compiler {
                 // typeof needs special handling for identifiers:
                 // typeof undeclaredVar should return "undefined", not throw ReferenceError
                 let src = self.builder.alloc_register()?;
-                if let Expression::Identifier(id) = &*unary.argument {
+                if let Expression::Identifier(id) = Self::erase_static_operand(&unary.argument) {
                     // Use TryGetVar to get undefined for undeclared variables
                     let name_idx = self.builder.add_string(id.name.cheap_clone())?;
                     self.builder.emit(Op::TryGetVar {
@@ -577,7 +588,7 @@ impl Compiler {
         expr: &Expression,
         dst: Register,
     ) -> Result<(), JsError> {
-        match expr {
+        match Self::erase_static_operand(expr) {
             Expression::Member(member) => {
                 let obj_reg = self.builder.alloc_register()?;
                 self.compile_expression(&member.object, obj_reg)?;
